@@ -10,18 +10,18 @@ from fsx.core import F
 ID = 'C14'
 LEVEL = 'exploration'
 RULE = ('parsing: every unit {none,b,k,kb,kib,m,mb,mib,g,gb,gib,t,tb,tib} x every letter-case variant x numbers '
-        '{1,2,5,10,0.5,1.5,2.25} (integral byte counts only) x {=,<,>,<=,>=,!=} against sparse files of size n*mult-1, '
+        '{1,2,5,10,0.5,1.5,2.25,.5,2.,.25,01,1.50} (integral byte counts only) x {=,<,>,<=,>=,!=} against sparse files of size n*mult-1, '
         'n*mult, n*mult+1; formatting: every specifier of the grammar precision {none,%.0..%.3} x {space,none} x every '
         'subset of {c,d,s} x unit {none,b,k,kb,kib,..,tb,tib} x a logarithmic size grid with +-1 neighbours, checked '
         'against the documented example table, the unit/base/precision grammar, half-unit accuracy, monotonicity and '
-        'round trip; fsize under several default_file_size_format settings')
-ASSUMPTIONS = ['literals whose byte count is not an integer are not generated (the statement defines no rounding)',
+        'round trip; fsize under several default_file_size_format settings, also for zip members; every ordered pair of 18 specifiers in one query')
+ASSUMPTIONS = ['literals whose byte count is not an integer are not generated (the statement defines no rounding); decimal notation is used with k..t units only',
                'a fixed unit without explicit precision is checked for accuracy/monotonicity only (default precision undocumented)',
                'integral quotients may be printed without decimals', 'the displayed quotient is a double: an error of one rounding (2^-52 relative) on top of the displayed precision is accepted']
 BUDGET = {'quick': 50, 'thorough': 900}
 
 UNITS = ['', 'b', 'k', 'kb', 'kib', 'm', 'mb', 'mib', 'g', 'gb', 'gib', 't', 'tb', 'tib']
-NUMS = ['1', '2', '5', '10', '0.5', '1.5', '2.25']
+NUMS = ['1', '2', '5', '10', '0.5', '1.5', '2.25', '.5', '2.', '.25', '01', '1.50']
 NUMS_T = NUMS + ['0', '3', '7', '100', '1023', '1024', '0.25', '0.75', '12.5', '999', '1000', '0.125']
 OPS = [('=', lambda a, b: a == b), ('<', lambda a, b: a < b), ('>', lambda a, b: a > b), ('<=', lambda a, b: a <= b),
        ('>=', lambda a, b: a >= b), ('!=', lambda a, b: a != b)]
@@ -50,6 +50,8 @@ def literal_cases(tier='quick'):
             v = Fraction(n) * mt.UNITS[u]
             if v.denominator != 1 or v + 1 > 15 * 1024 ** 4:
                 continue        # ext4 cannot hold a file of that size
+            if '.' in n and u in ('', 'b'):
+                continue        # a byte count is written as an integer; decimal notation belongs to the larger units
             for cv in case_variants(u):
                 yield n + cv, int(v)
 
@@ -86,6 +88,11 @@ def groups(tier, seed):
         yield {'kind': 'format', 'specs': sp[i:i + 40]}
     yield {'kind': 'doc'}
     yield {'kind': 'fsize'}
+    yield {'kind': 'fsize-archive'}
+    pool = ['', ' ', '%.2', '%.2 ', '%.0', '%.0 ', '%.0kb', '%.0 kb', '%.0 KB', '%.1d', '%.1 d', '%.1c', '%.1s', '%.1 s', 'k', ' k', '%.3 ck', '%.3ck']
+    pairs = [(a, b_) for a in pool for b_ in pool if a != b_]
+    for i in range(0, len(pairs), 40):
+        yield {'kind': 'specpair', 'pairs': pairs[i:i + 40]}
 
 
 def single(case):
@@ -94,6 +101,8 @@ def single(case):
         return {'kind': 'parse', 'lits': [[case['lit'], case['bytes']]], 'op': case['op'], 'tier': case.get('tier', 'quick')}
     if k == 'format':
         return {'kind': 'format', 'specs': [case['spec']]}
+    if k == 'specpair':
+        return {'kind': 'specpair', 'pairs': [case['pair']]}
     return {'kind': k}
 
 
@@ -218,6 +227,61 @@ def eval_group(env, group, tier):
             else:
                 r.update(status='ok', sig=tuple(vals[:8]))
             outs.append(r)
+    elif kind == 'specpair':
+        # differential: a specifier's rendering next to another specifier equals its rendering alone
+        alone = {}
+        def col(sp, n):
+            return "format_size(%d, '%s')" % (n, sp) if sp else 'format_size(%d)' % n
+        for a, b_ in group['pairs']:
+            for sp in (a, b_):
+                if sp not in alone:
+                    o = env.run([', '.join(col(sp, n) for n in (1678123, 1024, 999)) + ' into list'], cwd=env.base)
+                    alone[sp] = (o.rows(3) or [None])[0]
+            o = env.run([', '.join(col(sp, n) for n in (1678123, 1024, 999) for sp in (a, b_)) + ' into list'], cwd=env.base)
+            rows = o.rows(6)
+            r = {'case': {'kind': 'specpair', 'pair': [a, b_]}, 'nt': True, 'layer': 'specpair'}
+            exp = None
+            if alone[a] and alone[b_]:
+                exp = tuple(x for t in zip(alone[a], alone[b_]) for x in t)
+            if o.rc != 0 or not rows or rows[0] != exp:
+                r.update(status='viol', cls='specifier-depends-on-neighbour', detail={'pair': [a, b_], 'got': rows, 'alone': [alone[a], alone[b_]]}, sig=('pair',))
+            else:
+                r.update(status='ok', sig=exp)
+            outs.append(r)
+    elif kind == 'fsize-archive':
+        import io, zipfile
+        root = env.newdir('c14z')
+        try:
+            b2 = io.BytesIO()
+            with zipfile.ZipFile(b2, 'w') as z:
+                for nm, n in (('m1536', 1536), ('m1678123', 1678123), ('m0', 0)):
+                    z.writestr(zipfile.ZipInfo(nm, (2020, 1, 2, 3, 4, 6)), b'z' * n)
+            core.materialise(root, {'z.zip': F(data=b2.getvalue()), 'plain1536': F(1536)})
+            for spec in (None, '%.1 ', '%.0 d', '%.2ck', '%.3 s', ' kb'):
+                conf = open(env.config_path()).read()
+                try:
+                    if spec is not None:
+                        env.set_config(re.sub(r'(?m)^default_file_size_format.*$', '', conf) + "\ndefault_file_size_format = '%s'\n" % spec)
+                    o = env.run(['name, size, fsize, hsize from . archives into list'], cwd=root)
+                finally:
+                    env.set_config(conf)
+                rows = o.rows(4) or []
+                sp = parse_spec(spec or '')
+                bad = None
+                if o.rc != 0 or len(rows) != 5:
+                    bad = ('status', o.brief())
+                for name, size, fs, hs in rows:
+                    why = check_render(sp, int(size), fs)
+                    if why or fs != hs:
+                        bad = (name, size, fs, hs, why)
+                r = {'case': {'kind': 'fsize-archive', 'spec': spec}, 'nt': True, 'layer': 'fsize-archive', 'trans': len(rows)}
+                if bad:
+                    r.update(status='viol', cls='fsize-archive-member', detail={'spec': spec, 'bad': bad}, sig=('fsz',))
+                else:
+                    r.update(status='ok', sig=tuple(x[2] for x in rows))
+                outs.append(r)
+        finally:
+            env.rmtree(root)
     elif kind == 'doc':
         for spec, want in DOC_TABLE:
             arg = "format_size(1678123, '%s')" % spec if spec is not None else 'format_size(1678123)'
